@@ -96,6 +96,8 @@ def scenario_table(root):
     I, W, R, L, A, X = actors(root)  # noqa
     return {
         "I(s)|X": [I(S_), X()],
+        # the same job, spelled with another key order by the second process
+        "I(ab)|I(ba)": [I({"a": 1, "b": {"x": 1, "y": 2}}), I({"b": {"y": 2, "x": 1}, "a": 1})],
         "A(p)|R(p)": [A(PRE[0], {"k": 1, "z": [1, 2]}), R(PRE[0])],
         "A(p)|W(p)": [A(PRE[0], {"k": 1}), W(PRE[1], "k", 2)],
         "I(s)|I(s)": [I(S_), I(S_)],
@@ -113,7 +115,7 @@ def scenario_table(root):
 
 
 QUICK = [("I(s)|I(s)", "empty"), ("I(s)|I(t)", "empty"), ("I(e)|W(t)", "populated"), ("I(s)|L", "populated"), ("I(s)|L", "empty"), ("W(s)|W(t)", "populated"),
-         ("W(s)|R(s)", "populated"), ("W(s,k1)|I(s)", "empty"), ("A(p)|R(p)", "populated"), ("I(s)|X", "populated")]
+         ("W(s)|R(s)", "populated"), ("W(s,k1)|I(s)", "empty"), ("A(p)|R(p)", "populated"), ("I(s)|X", "populated"), ("I(ab)|I(ba)", "populated")]
 
 
 def setup(tpl, start):
